@@ -25,6 +25,7 @@ import Driver.Meta
 import Driver.Ieee
 import Driver.Dwvw
 import Driver.Small1
+import Driver.Alac
 open Sf
 
 def lawOf (s : String) : Option G711.Law :=
@@ -95,4 +96,5 @@ def main (args : List String) : IO UInt32 := do
   | "ieee" :: rest => Driver.Ieee.cmd rest
   | "dwvw" :: rest => Driver.Dwvw.cmd rest
   | "small1" :: rest => Driver.Small1.cmd rest
+  | "alac" :: rest => Driver.Alac.cmd rest
   | _ => IO.eprintln "usage: sfmodel <g711|...> ..."; return 2
